@@ -171,8 +171,9 @@ fn stuck_proof(log: &[vh::Event], threads: usize) -> Option<String> {
     None
 }
 
-/// (tid, state, voluntary + involuntary context switches) of every thread of this process except the caller
-fn thread_snapshot() -> Vec<(u64, char, u64)> {
+/// (tid, state, voluntary + involuntary context switches, CPU clock ticks) of every thread of this
+/// process except the caller
+fn thread_snapshot() -> Vec<(u64, char, u64, u64)> {
     let me = unsafe { libc::syscall(libc::SYS_gettid) } as u64;
     let mut v = Vec::new();
     if let Ok(rd) = std::fs::read_dir("/proc/self/task") {
@@ -191,32 +192,57 @@ fn thread_snapshot() -> Vec<(u64, char, u64)> {
                     sw += x.trim().parse::<u64>().unwrap_or(0);
                 }
             }
-            v.push((tid, state, sw));
+            // utime + stime: fields 14 and 15 of stat, counted after the ")" that ends the command name
+            let ticks = std::fs::read_to_string(e.path().join("stat"))
+                .ok()
+                .and_then(|t| t.rfind(')').map(|i| t[i + 1..].split_whitespace().map(|x| x.to_string()).collect::<Vec<_>>()))
+                .map(|f| f.get(11).and_then(|x| x.parse::<u64>().ok()).unwrap_or(0) + f.get(12).and_then(|x| x.parse::<u64>().ok()).unwrap_or(0))
+                .unwrap_or(0);
+            v.push((tid, state, sw, ticks));
         }
     }
     v.sort();
     v
 }
 
-/// OS-level proof of a stuck process, independent of which lock or wait is involved: over three
-/// samples 2.5 s apart every other thread of this process is asleep in the kernel ('S') and its
-/// context-switch counters have not moved, and the event log has not grown. ragc's only timed waits
-/// are sleeps of <= 100 ms (they would show up as context switches), nothing in the child waits for
-/// input from outside, and the caller (the watchdog) wakes nobody: so no thread can ever run again.
-/// A merely slow run has a thread that is runnable ('R'), in disk wait, or switching.
+/// OS-level proof of a stuck process, independent of which lock or wait is involved. Over three
+/// samples 2.5 s apart: the event log has not grown; every other thread of this process is asleep
+/// in the kernel ('S') at each sample; and each thread either has unchanged context-switch counters
+/// (it sits in an indefinite wait) or has used at most 2 clock ticks of CPU in the whole window (it
+/// only sleep-polls: ragc's two polling loops, drain() and sync_and_flush(), sleep 10-100 ms and
+/// merely read the queue length - they wake nobody). Nothing in the child waits for input from
+/// outside and the caller (the watchdog) wakes nobody, so no thread can ever do useful work again.
+/// A merely slow run has a thread that is runnable ('R'), in disk wait ('D'), or burning CPU.
 fn os_stuck_proof() -> Option<String> {
     let s0 = thread_snapshot();
     let l0 = vh::log_len();
     if s0.is_empty() || s0.iter().any(|t| t.1 != 'S') {
         return None;
     }
+    let mut last = s0.clone();
     for _ in 0..2 {
         std::thread::sleep(Duration::from_millis(2500));
-        if thread_snapshot() != s0 || vh::log_len() != l0 {
+        let s = thread_snapshot();
+        if vh::log_len() != l0 || s.len() != s0.len() || s.iter().zip(s0.iter()).any(|(a, b)| a.0 != b.0 || a.1 != 'S') {
             return None;
         }
+        last = s;
     }
-    Some(format!("none of the {} threads of the pipeline process ran during 5 s: all are asleep in the kernel with unchanged context-switch counters, and no event was logged", s0.len()))
+    let mut pollers = 0usize;
+    for (a, b) in s0.iter().zip(last.iter()) {
+        if a.2 != b.2 {
+            if b.3.saturating_sub(a.3) > 2 {
+                return None; // it runs and uses CPU: alive
+            }
+            pollers += 1;
+        }
+    }
+    Some(format!(
+        "none of the {} threads of the pipeline process did any work during 5 s: {} are asleep in the kernel with unchanged context-switch counters, {} only sleep-poll (<= 2 clock ticks of CPU), and no event was logged",
+        s0.len(),
+        s0.len() - pollers,
+        pollers
+    ))
 }
 
 fn last_events(log: &[vh::Event]) -> String {
@@ -279,7 +305,7 @@ pub fn child_main(args: &[String]) -> i32 {
     let mut last_change = Instant::now();
     let mut os_proof: Option<String> = None;
     let mut os_tried = 0u32;
-    let mut last_snap: Vec<(u64, char, u64)> = Vec::new();
+    let mut last_snap: Vec<(u64, char, u64, u64)> = Vec::new();
     let mut last_os_change = Instant::now();
     let mut last_os_sample = Instant::now();
     let result = loop {
@@ -293,7 +319,8 @@ pub fn child_main(args: &[String]) -> i32 {
                 if start.elapsed() > deadline {
                     if last_os_sample.elapsed() > Duration::from_secs(2) {
                         last_os_sample = Instant::now();
-                        let snap = thread_snapshot();
+                        // progress = some thread used CPU or is not asleep (a sleep-polling thread switches but does no work)
+                        let snap: Vec<(u64, char, u64, u64)> = thread_snapshot().into_iter().map(|t| (t.0, t.1, 0, t.3)).collect();
                         if snap != last_snap {
                             last_snap = snap;
                             last_os_change = Instant::now();
